@@ -240,6 +240,11 @@ func (val Value) Equals(other Value) Value {
 	case ty.IsObjectType():
 		oty := ty.typeImpl.(typeObject)
 		result = true
+		// A definite difference in any attribute decides the answer whatever
+		// the (unspecified) order in which the attributes are visited, so an
+		// undecided attribute only makes the answer unknown when no other
+		// attribute differs.
+		undecided := false
 		for attr, aty := range oty.AttrTypes {
 			lhs := Value{
 				ty: aty,
@@ -251,12 +256,16 @@ func (val Value) Equals(other Value) Value {
 			}
 			eq := lhs.Equals(rhs)
 			if !eq.IsKnown() {
-				return unknownResult()
+				undecided = true
+				continue
 			}
 			if eq.False() {
 				result = false
 				break
 			}
+		}
+		if result && undecided {
+			return unknownResult()
 		}
 	case ty.IsTupleType():
 		tty := ty.typeImpl.(typeTuple)
@@ -339,6 +348,9 @@ func (val Value) Equals(other Value) Value {
 		ety := ty.typeImpl.(typeMap).ElementTypeT
 		if len(val.v.(map[string]interface{})) == len(other.v.(map[string]interface{})) {
 			result = true
+			// (as for objects: a missing key or a definite difference decides
+			// the answer in whatever order the keys are visited)
+			undecided := false
 			for k := range val.v.(map[string]interface{}) {
 				if _, ok := other.v.(map[string]interface{})[k]; !ok {
 					result = false
@@ -354,12 +366,16 @@ func (val Value) Equals(other Value) Value {
 				}
 				eq := lhs.Equals(rhs)
 				if !eq.IsKnown() {
-					return unknownResult()
+					undecided = true
+					continue
 				}
 				if eq.False() {
 					result = false
 					break
 				}
+			}
+			if result && undecided {
+				return unknownResult()
 			}
 		}
 	case ty.IsCapsuleType():
